@@ -19,7 +19,8 @@
 (***************************************************************************)
 EXTENDS Schema, Json, TLC
 
-CONSTANT Tier   \* "quick" | "thorough"
+CONSTANTS Tier,  \* "quick" | "thorough"
+          Fams   \* the case families to enumerate, a subset of {"ax", "val", "bud", "upg", "der"}
 Quick == Tier = "quick"
 
 T(x) == <<x>>
@@ -366,6 +367,7 @@ VARIABLES fam, ti, vi
 vars == <<fam, ti, vi>>
 
 Init == /\ vi = 0
+        /\ fam \in Fams
         /\ \/ fam = "ax"  /\ ti = 1
            \/ fam = "val" /\ ti \in 1..NT
            \/ fam = "bud" /\ ti \in 1..NB
